@@ -72,6 +72,7 @@ const (
 	ModAllFields
 	ModElems
 	ModAllOfType // every object of a type: all T.f / all T.*
+	ModAllMem    // every backing array with element type T: mem T
 )
 
 type ModTarget struct {
@@ -388,7 +389,7 @@ func (p *parser) mul() Expr {
 
 func (p *parser) unary() Expr {
 	t := p.peek()
-	if t.kind == "op" && (t.s == "!" || t.s == "-" || t.s == "^") {
+	if t.kind == "op" && (t.s == "!" || t.s == "-" || t.s == "^" || t.s == "&") {
 		p.next()
 		return &EUnary{t.s, p.unary()}
 	}
@@ -762,6 +763,9 @@ func parseModTarget(s string) (*ModTarget, error) {
 	s = strings.TrimSpace(s)
 	if s == "*" {
 		return &ModTarget{Kind: ModAll, Src: s}, nil
+	}
+	if strings.HasPrefix(s, "mem ") {
+		return &ModTarget{Kind: ModAllMem, TypeName: strings.TrimSpace(s[4:]), Src: s}, nil
 	}
 	if strings.HasPrefix(s, "all ") {
 		r := strings.TrimSpace(s[4:])
